@@ -4,7 +4,7 @@ from fractions import Fraction
 import math
 
 from .engine import Judgement
-from .numcmp import close, fr, near_half, KNIFE
+from .numcmp import close, fr, near_half, near_zero_cmp, KNIFE
 
 MON = 1578268800          # 2020-01-06 00:00:00 UTC, a Monday
 DAY = 86400
@@ -192,8 +192,8 @@ def gen_broker_case(rng, stream='valid', n_ops=None, exact=False, fee=None, npf=
             else:
                 ops.append([k])
     return {'kind': 'broker', 'stream': stream + (':exact' if exact else ''),
-            'cfg': {'start': start, 'base': 'USD', 'funds': funds, 'fee': fee, 'pre': 0},
-            'quotes': quotes, 'ops': ops, 'exact': exact}
+            'cfg': {'start': start, 'base': 'USD', 'funds': funds, 'fee': fee, 'pre': 1},
+            'quotes': quotes, 'ops': ops, 'exact': exact, 'assets': assets}
 
 
 def scale_of(case):
@@ -261,6 +261,45 @@ def cmp_event(me, ie, tol, unrounded, where, out, j):
                 out.append('%s: event %s model=%s impl=%s' % (where, name, float(me[k]), ie[k]))
 
 
+def cmp_pf(mpf, ipf, pubpos, fields, tol, ww, out, j, amts):
+    """one portfolio: model light snapshot vs implementation snapshot + public holdings view"""
+    if 'clocks' in fields and mpf[0] != ipf[0]:
+        out.append('%s: portfolio clock model=%s impl=%s' % (ww, mpf[0], ipf[0]))
+    if 'cash' in fields and not close(mpf[1], ipf[1], tol):
+        out.append('%s: cash model=%s impl=%s' % (ww, float(mpf[1]), ipf[1]))
+    if 'hist' in fields:
+        if mpf[3] != ipf[3]:
+            out.append('%s: history length model=%s impl=%s' % (ww, mpf[3], ipf[3]))
+        elif mpf[4] and ipf[4]:
+            cmp_event(mpf[4][0], ipf[4][0], tol, amts, ww, out, j)
+    if 'holdings' in fields:
+        mh = [[p[0], p[1], p[10]] for p in mpf[2]]
+        ih = [[p[0], p[1], p[2]] for p in pubpos]
+        if [x[0] for x in mh] != [x[0] for x in ih]:
+            out.append('%s: holdings keys model=%s impl=%s' % (ww, [x[0] for x in mh], [x[0] for x in ih]))
+        else:
+            for a, b in zip(mh, ih):
+                if not close(a[1], b[1], tol) or not close(a[2], b[2], tol):
+                    out.append('%s: holding %s qty/mv model=%s impl=%s' % (ww, a[0], [float(a[1]), float(a[2])], b[1:]))
+        if not close(mpf[5], ipf[5], tol) or not close(mpf[6], ipf[6], tol):
+            out.append('%s: tmv/equity model=%s impl=%s' % (ww, [float(mpf[5]), float(mpf[6])], ipf[5:7]))
+    if 'pnl' in fields and [p[0] for p in mpf[2]] == [p[0] for p in pubpos]:
+        for a, b in zip(mpf[2], pubpos):
+            for km, ki, nm in ((11, 3, 'unrealised'), (12, 4, 'realised'), (13, 5, 'total')):
+                if not close(a[km], b[ki], tol):
+                    out.append('%s: %s %s_pnl model=%s impl=%s' % (ww, a[0], nm, float(a[km]), b[ki]))
+        for km, nm in ((7, 'total_unrealised'), (8, 'total_realised'), (9, 'total_pnl')):
+            if not close(mpf[km], ipf[km], tol):
+                out.append('%s: %s model=%s impl=%s' % (ww, nm, float(mpf[km]), ipf[km]))
+    if 'posfields' in fields and [p[0] for p in mpf[2]] == [p[0] for p in ipf[2]]:
+        for a, b in zip(mpf[2], ipf[2]):
+            for k in (1, 2, 4, 5, 6, 7, 8, 9, 14, 15):
+                if b[k] is not None and not close(a[k], b[k], tol):
+                    out.append('%s: position %s field %d model=%s impl=%s' % (ww, a[0], k, float(a[k]), b[k]))
+            if 'clocks' in fields and b[3] is not None and a[3] != b[3]:
+                out.append('%s: position %s clock model=%s impl=%s' % (ww, a[0], a[3], b[3]))
+
+
 def compare_broker(case, impl, mod, fields, j):
     """Append model-vs-implementation differences on the selected observables to j.disagreements."""
     out = j.disagreements
@@ -275,6 +314,7 @@ def compare_broker(case, impl, mod, fields, j):
             out.append('constructor: model=%s impl=%s' % (mi, ii))
         return
     msteps = mod[1]
+    prev_m = None
     for n, (ms, st) in enumerate(zip(msteps, impl['steps'])):
         op = case['ops'][n]
         w = 'step %d %s' % (n, op)
@@ -293,6 +333,14 @@ def compare_broker(case, impl, mod, fields, j):
         if mres[0] == 'err' and mres[1] == 'OutOfModel':
             j.tags.append('out_of_model')
             return
+        if mres[0] != ires[0] and prev_m is not None and op[0] in ('wdacct', 'subpf', 'wdpf'):
+            # knife edge of the `amount > cash` guard: float cash and exact cash differ by a hair
+            amt_ = Fraction(op[1] if op[0] == 'wdacct' else op[2])
+            bal_ = [prev_m[1]] + [a[1][1] for a in prev_m[2] if op[0] == 'wdpf' and a[0] == op[1]]
+            if any(near_zero_cmp(amt_, b) for b in bal_):
+                j.knife += 1
+                return
+        prev_m = msnap
         if 'res' in fields:
             if mres[0] != ires[0] or (mres[0] == 'err' and mres[1] != ires[1]):
                 out.append('%s: result model=%s impl=%s' % (w, mres[:3], ires))
@@ -334,55 +382,22 @@ def compare_broker(case, impl, mod, fields, j):
                         out.append('%s: fill model=%s impl=%s' % (w, [a[0], a[1], float(a[2]), a[3], float(a[4]), float(a[5]), a[6]], b))
         for (pid, mpf, mq), (_, ipf, iq), pub in zip(msnap[2], isnap[2], st['pub']):
             ww = '%s pf %s' % (w, pid)
-            if 'clocks' in fields and mpf[0] != ipf[0]:
-                out.append('%s: portfolio clock model=%s impl=%s' % (ww, mpf[0], ipf[0]))
-            if 'cash' in fields:
-                if not close(mpf[1], ipf[1], tol):
-                    out.append('%s: cash model=%s impl=%s' % (ww, float(mpf[1]), ipf[1]))
-                if len(pub) > 2 and not close(mpf[1], pub[1], tol):
-                    out.append('%s: get_portfolio_cash_balance model=%s impl=%s' % (ww, float(mpf[1]), pub[1]))
             if 'queues' in fields and mq != iq:
                 out.append('%s: queue model=%s impl=%s' % (ww, mq, iq))
-            if 'hist' in fields:
-                if mpf[3] != ipf[3]:
-                    out.append('%s: history length model=%s impl=%s' % (ww, mpf[3], ipf[3]))
-                elif mpf[4] and ipf[4]:
-                    amts = [mpf[1]]
-                    if op[0] in ('subpf', 'wdpf'):
-                        amts.append(Fraction(op[2]))
-                    for e in meff:
-                        if e[0] == 'fill':
-                            amts.append(e[2][1] * e[2][3] + e[2][4])
-                    cmp_event(mpf[4][0], ipf[4][0], tol, amts, ww, out, j)
-            if 'holdings' in fields:
-                if len(pub) == 2:
-                    out.append('%s: getters raised %s' % (ww, pub[1]))
-                else:
-                    mh = [[p[0], p[1], p[10]] for p in mpf[2]]
-                    ih = [[p[0], p[1], p[2]] for p in pub[4]]
-                    if [x[0] for x in mh] != [x[0] for x in ih]:
-                        out.append('%s: holdings keys model=%s impl=%s' % (ww, [x[0] for x in mh], [x[0] for x in ih]))
-                    else:
-                        for a, b in zip(mh, ih):
-                            if not close(a[1], b[1], tol) or not close(a[2], b[2], tol):
-                                out.append('%s: holding %s qty/mv model=%s impl=%s' % (ww, a[0], [float(a[1]), float(a[2])], b[1:]))
-                    if not close(mpf[5], pub[2], tol) or not close(mpf[6], pub[3], tol):
-                        out.append('%s: tmv/equity model=%s impl=%s' % (ww, [float(mpf[5]), float(mpf[6])], pub[2:4]))
-            if 'pnl' in fields and len(pub) > 2 and [p[0] for p in mpf[2]] == [p[0] for p in pub[4]]:
-                for a, b in zip(mpf[2], pub[4]):
-                    for km, ki, nm in ((11, 3, 'unrealised'), (12, 4, 'realised'), (13, 5, 'total')):
-                        if not close(a[km], b[ki], tol):
-                            out.append('%s: %s %s_pnl model=%s impl=%s' % (ww, a[0], nm, float(a[km]), b[ki]))
-                for km, nm in ((7, 'total_unrealised'), (8, 'total_realised'), (9, 'total_pnl')):
-                    if not close(mpf[km], ipf[km], tol):
-                        out.append('%s: %s model=%s impl=%s' % (ww, nm, float(mpf[km]), ipf[km]))
-            if 'posfields' in fields and [p[0] for p in mpf[2]] == [p[0] for p in ipf[2]]:
-                for a, b in zip(mpf[2], ipf[2]):
-                    for k in (1, 2, 4, 5, 6, 7, 8, 9, 14, 15):
-                        if b[k] is not None and not close(a[k], b[k], tol):
-                            out.append('%s: position %s field %d model=%s impl=%s' % (ww, a[0], k, float(a[k]), b[k]))
-                    if 'clocks' in fields and b[3] is not None and a[3] != b[3]:
-                        out.append('%s: position %s clock model=%s impl=%s' % (ww, a[0], a[3], b[3]))
+            amts = [mpf[1]]
+            if op[0] in ('subpf', 'wdpf'):
+                amts.append(Fraction(op[2]))
+            for e in meff:
+                if e[0] == 'fill':
+                    amts.append(e[2][1] * e[2][3] + e[2][4])
+            if len(pub) == 2:
+                out.append('%s: getters raised %s' % (ww, pub[1]))
+                continue
+            if 'cash' in fields and not close(mpf[1], pub[1], tol):
+                out.append('%s: get_portfolio_cash_balance model=%s impl=%s' % (ww, float(mpf[1]), pub[1]))
+            if 'holdings' in fields and (not close(mpf[5], pub[2], tol) or not close(mpf[6], pub[3], tol)):
+                out.append('%s: tmv/equity getters model=%s impl=%s' % (ww, [float(mpf[5]), float(mpf[6])], pub[2:4]))
+            cmp_pf(mpf, ipf, pub[4], fields, tol, ww, out, j, amts)
         if len(out) > 20:
             return
     if 'hist' in fields and len(mod) > 2:
@@ -401,3 +416,143 @@ def compare_broker(case, impl, mod, fields, j):
             hl = dict((p, len(h)) for p, h in impl['hist'])
             if n != hl.get(pid):
                 out.append('history_to_df rows for %s: %s vs history %s' % (pid, n, hl.get(pid)))
+
+
+# ---------------------------------------------------------------- Portfolio-level sequences
+def gen_portfolio_case(rng, stream='valid', n_ops=None, exact=False, real_qty=False):
+    """Direct Portfolio operations with explicit timestamps."""
+    n_ops = n_ops or rng.randint(3, 50)
+    nas = rng.randint(1, 3)
+    assets = ASSETS[:nas]
+    bad_rate = {'valid': 0.05, 'boundary': 0.12, 'malformed': 0.4}[stream]
+    start = MON + DAY * rng.randint(0, 6) + rng.choice([0, OPEN])
+    cash = dy(rng, 0, 100000, 4) if rng.random() < 0.8 else 0.0
+    t = start
+    price = {a: dy(rng, 5, 300, 8) for a in assets}
+    ops = []
+    tcash = Fraction(cash)
+    known_cash = True
+    for _ in range(n_ops):
+        r = rng.random()
+        t2 = t + rng.choice([0, 0, 1, 60, 3600, DAY])
+        if exact:
+            am = dy(rng, 0, 20000, 4)
+        else:
+            am = rng.choice([round(rng.uniform(0, 20000), 2), rng.uniform(0, 20000)])
+        a = rng.choice(assets)
+        if exact:
+            price[a] = max(0.5, price[a] + rng.randint(-16, 16) / 8)
+        else:
+            price[a] = max(0.5, price[a] * (1 + rng.uniform(-0.05, 0.05)))
+        if rng.random() < bad_rate:
+            k = rng.choice(['negsub', 'negwd', 'overwd', 'earlysub', 'earlywd', 'earlytxn', 'earlymark', 'negmark', 'zeromark'])
+            tb = t - rng.choice([1, 60, DAY])
+            if k == 'negsub':
+                ops.append(['sub', t2, -am - 0.25])
+            elif k == 'negwd':
+                ops.append(['wd', t2, -am - 0.25])
+            elif k == 'overwd':
+                ops.append(['wd', t2, (float(tcash) if known_cash else 1e7) + am + 0.25])
+            elif k == 'earlysub':
+                ops.append(['sub', tb, am])
+            elif k == 'earlywd':
+                ops.append(['wd', tb, 0.0])
+            elif k == 'earlytxn':
+                ops.append(['txn', a, rng.randint(1, 50), tb, price[a], 0.0])
+            elif k == 'earlymark':
+                ops.append(['mark', a, price[a], tb])
+            elif k == 'negmark':
+                ops.append(['mark', a, -price[a], t2])
+            else:
+                ops.append(['mark', a, 0.0, t2])
+            continue
+        if r < 0.12:
+            if stream == 'boundary' and rng.random() < 0.3:
+                am = 0.0
+            ops.append(['sub', t2, am])
+            tcash += Fraction(am)
+            t = t2
+        elif r < 0.2:
+            if known_cash:
+                am = float(tcash) if (stream == 'boundary' and rng.random() < 0.5) else float(tcash) * rng.random() * 0.5
+                if exact:
+                    am = math.floor(am * 4) / 4
+                if Fraction(am) <= tcash:
+                    tcash -= Fraction(am)
+            ops.append(['wd', t2, am])
+            t = t2
+        elif r < 0.7:
+            if real_qty:
+                q = rng.choice([rng.randint(-200, 200), dy(rng, 1, 200, 8), -dy(rng, 0.125, 200, 8), rng.uniform(1, 100), -rng.uniform(0.01, 100)])
+                if exact and not float(q * 8).is_integer():
+                    q = float(rng.randint(1, 100))
+            else:
+                q = rng.choice([rng.randint(-200, 200), rng.randint(-5, 5), rng.randint(1, 300)])
+            if q == 0 and rng.random() < 0.8:
+                q = 1
+            if exact:
+                comm = rng.choice([0.0, dy(rng, 0, 50, 8)])
+            else:
+                comm = rng.choice([0.0, round(rng.uniform(0, 50), 2), rng.uniform(0, 50)])
+            ops.append(['txn', a, q, t2, price[a], comm])
+            known_cash = False
+            t = t2
+        else:
+            ops.append(['mark', a, price[a], t2])
+    return {'kind': 'portfolio', 'stream': stream + (':exact' if exact else ''), 'start': start, 'cash': cash,
+            'ops': ops, 'exact': exact}
+
+
+def pscale_of(case):
+    s = abs(case['cash']) + 1.0
+    for op in case['ops']:
+        if op[0] in ('sub', 'wd'):
+            s += abs(op[2])
+        elif op[0] == 'txn':
+            s += abs(op[2] * op[4]) + abs(op[5])
+        elif op[0] == 'mark':
+            s += abs(op[2]) * 300
+    return s
+
+
+def portfolio_model_case(case):
+    ops = []
+    for op in case['ops']:
+        if op[0] in ('sub', 'wd'):
+            ops.append([op[0], int(op[1]), Fraction(op[2])])
+        elif op[0] == 'txn':
+            ops.append(['txn', op[1], Fraction(op[2]), int(op[3]), Fraction(op[4]), Fraction(op[5])])
+        else:
+            ops.append(['mark', op[1], Fraction(op[2]), int(op[3])])
+    return ('portfolio_run', [int(case['start']), Fraction(case['cash']), ops])
+
+
+def compare_portfolio(case, impl, mod, fields, j):
+    out = j.disagreements
+    tol = Fraction(1, 10**9) * Fraction(max(1.0, pscale_of(case)))
+    if isinstance(mod, list) and mod and mod[0] == 'BAD_INPUT':
+        out.append('model rejected the input encoding')
+        return
+    prev_cash = Fraction(case['cash'])
+    for n, (ms, st) in enumerate(zip(mod[0], impl['steps'])):
+        op = case['ops'][n]
+        w = 'step %d %s' % (n, op)
+        mres, mpf = ms
+        ires = st['res']
+        if mres[0] != ires[0] and op[0] == 'wd' and prev_cash is not None and near_zero_cmp(Fraction(op[2]), prev_cash):
+            j.knife += 1
+            return
+        prev_cash = mpf[1]
+        if 'res' in fields and (mres[0] != ires[0] or (mres[0] == 'err' and mres[1] != ires[1])):
+            out.append('%s: result model=%s impl=%s' % (w, mres[:3], ires))
+            return
+        amts = [mpf[1]]
+        if op[0] in ('sub', 'wd'):
+            amts.append(Fraction(op[2]))
+        elif op[0] == 'txn':
+            amts.append(Fraction(op[2]) * Fraction(op[4]) + Fraction(op[5]))
+        cmp_pf(mpf, st['snap'], st['pub'], fields, tol, w, out, j, amts)
+        if len(out) > 20:
+            return
+    if 'hist' in fields and len(mod[1]) != len(impl['hist']):
+        out.append('final history length model=%d impl=%d' % (len(mod[1]), len(impl['hist'])))
